@@ -1,13 +1,13 @@
 import SwcVerif.Gen.AlgoCtor
 import SwcVerif.Model.AlgoRunRepair
 /-! Driver side of the imperative translator for the wrappers of `Gen/AlgoCtor.lean` (see `AlgoRunDsu.lean`): the deprecated spellings of the
-checkers / furcation queries and the COPYING spellings of the normalizer, run on the same protocol lines as the real functions.  For the
+checkers and the COPYING spellings of the normalizer, run on the same protocol lines as the real functions.  For the
 copying spellings the frame handed in is object 1 of a two-object heap (object 0 is an unrelated bystander frame); the answer shows the columns
 of the RESULT, the columns of the INPUT object after the call, the bystander, and the two references. -/
 namespace AlgoRun
 open Gen.Algo
 
-/-- `gwrap op=binary|singleroot|bifurcations|isbif ids=.. pids=.. [excl=0|1] [node=k]` -/
+/-- `gwrap op=binary|singleroot ids=.. pids=.. [excl=0|1]` -/
 def handleWrap (args : List String) : String :=
   match Proto.arg args "op", Proto.argInts args "ids", Proto.argInts args "pids" with
   | some op, some ids, some pids =>
@@ -15,8 +15,6 @@ def handleWrap (args : List String) : String :=
     match op with
     | "binary" => tf (is_binary_tree ids pids (Proto.argNat args "excl" != some 0))
     | "singleroot" => tf (check_single_root (ids.length * ids.length + 2) ids pids)
-    | "bifurcations" => match get_bifurcations (2 * ids.length + 3) ids pids with | some l => Proto.showInts l | none => "E"
-    | "isbif" => tf (node_is_bifurcation ids pids ((Proto.argInt args "node").getD 0))
     | _ => "bad-op"
   | _, _, _ => "bad-args"
 
